@@ -23,6 +23,12 @@ impl<'a> PeekChars<'a> {
     { self.it.peek() }
 }
 
+/// byte offset at which the j-th character of `s` starts (sum of the UTF-8 lengths before it)
+pub open spec fn ci_byte_offset(s: Seq<char>, j: int) -> int
+    decreases j,
+{
+    if j <= 0 { 0 } else { ci_byte_offset(s, j - 1) + s[j - 1].len_utf8() as int }
+}
 #[verifier::external_body]
 pub struct PeekCharIndices<'a> { it: std::iter::Peekable<std::str::CharIndices<'a>> }
 impl<'a> PeekCharIndices<'a> {
@@ -32,6 +38,8 @@ impl<'a> PeekCharIndices<'a> {
     #[verifier::external_body]
     pub fn new(s: &'a str) -> (r: Self)
         ensures r.chars() == s@,
+            // `char_indices` pairs every character with the BYTE offset it starts at
+            forall|j: int| 0 <= j < r.view().len() ==> (#[trigger] r.view()[j]).0 as int == ci_byte_offset(s@, j),
     { PeekCharIndices { it: s.char_indices().peekable() } }
     #[verifier::external_body]
     pub fn next(&mut self) -> (r: Option<(usize, char)>)
@@ -39,6 +47,14 @@ impl<'a> PeekCharIndices<'a> {
             old(self).view().len() == 0 ==> r is None && final(self).view() == old(self).view(),
             old(self).view().len() > 0 ==> r == Some(old(self).view()[0]) && final(self).view() == old(self).view().skip(1),
     { self.it.next() }
+    /// `peek().cloned()` (a copy of the peeked pair; vstd has no clone specification for tuples)
+    #[verifier::external_body]
+    pub fn peek_cloned(&mut self) -> (r: Option<(usize, char)>)
+        ensures
+            final(self).view() == old(self).view(),
+            old(self).view().len() == 0 ==> r is None,
+            old(self).view().len() > 0 ==> r == Some(old(self).view()[0]),
+    { self.it.peek().cloned() }
     #[verifier::external_body]
     pub fn peek(&mut self) -> (r: Option<&(usize, char)>)
         ensures
